@@ -27,8 +27,6 @@ import (
 	"go/types"
 	"math"
 	"math/big"
-	"os"
-	"sort"
 	"strings"
 	"unicode"
 
@@ -51,6 +49,7 @@ const (
 	KTuple
 	KFunc // known function value
 	KSym  // unknown value with a name: a term over parameters and unmodified input memory
+	KAgg  // struct or array value: a copy of the cells below path S (Agg: the cells written there)
 )
 
 type Val struct {
@@ -65,6 +64,7 @@ type Val struct {
 	Inner *Val
 	Elems []Val
 	Fn    *ssa.Function
+	Agg   map[string]cell
 	Dep   bool // (KTop) derived from a bound subject through something the evaluator cannot follow
 }
 
@@ -129,6 +129,8 @@ func (v Val) String() string {
 		return "func " + v.Fn.String()
 	case KSym:
 		return v.S
+	case KAgg:
+		return "copy(" + v.S + ")"
 	}
 	return "?"
 }
@@ -166,6 +168,17 @@ func equalVal(a, b Val) bool {
 		return a.Fn == b.Fn
 	case KTop:
 		return a.Dep == b.Dep
+	case KAgg:
+		if a.S != b.S || len(a.Agg) != len(b.Agg) {
+			return false
+		}
+		for k, x := range a.Agg {
+			y, ok := b.Agg[k]
+			if !ok || !sameCell(x, y) {
+				return false
+			}
+		}
+		return true
 	}
 	return true
 }
@@ -205,343 +218,8 @@ func join(a, b Val) Val {
 
 // ---------------------------------------------------------------------------
 
-// Interp holds what is shared by one query: bindings, heap, limits.
-type Interp struct {
-	Prog *Prog
-	// Bind lets a query give selected SSA values a constant. It is consulted
-	// before anything else, in the queried function and in every callee.
-	Bind func(v ssa.Value, fr *frame) (Val, bool)
-	// PathBind gives memory paths a value ("p0.stream", "len(p0.values)").
-	PathBind map[string]Val
-	heap     map[string]Val
-	// finalHeap holds what the final pass over the fixpoint stored; the rules
-	// read results from it (HeapAt, Elem).
-	finalHeap map[string]Val
-	heapGen   int
-	// steps counts block evaluations over the whole query; beyond maxSteps
-	// every activation gives up (unknown result) and the query is marked
-	// stuck, so that a non-converging evaluation ends as "undecided".
-	steps      int
-	maxSteps   int
-	overBudget bool
-	depth      int
-	stack      []*ssa.Function
-	// OpaqueSubject is set when a branch condition was unknown because of a
-	// subject-derived value the evaluator could not follow.
-	OpaqueSubject bool
-	OpaqueAt      []string
-	// Symbolic makes unbound parameters and unmodified input memory evaluate
-	// to named terms instead of plain unknowns.
-	Symbolic bool
-	// Stuck lists branch conditions that never received a value (analysis bug
-	// or unsupported construct): any verdict based on this run is undecided.
-	Stuck []string
-	// collect is set during the extra pass after the top-level fixpoint: only
-	// then are ReachedAny and OnCall fed, so that they describe the fixpoint and
-	// not the transient states on the way to it.
-	collect bool
-	// OnCall observes every call whose callee is known, with argument values.
-	OnCall func(call *ssa.Call, callee *ssa.Function, args []Val, fr *frame)
-	// OnAppend observes every append (final pass only): the call, the appended
-	// slice value and, when its length is known, its elements.
-	OnAppend func(call *ssa.Call, appended Val, elems []Val, fr *frame)
-	// CutSink receives every integer constant a subject-derived value is compared with.
-	CutSink func(c *big.Int)
-	Sizes   types.Sizes
-	// ReachedAny records every instruction reached in any frame (incl. callees).
-	ReachedAny map[ssa.Instruction]bool
-}
-
-func NewInterp(p *Prog) *Interp {
-	return &Interp{Prog: p, PathBind: map[string]Val{}, heap: map[string]Val{}, maxSteps: 400000,
-		Sizes: types.SizesFor("gc", "amd64"), ReachedAny: map[ssa.Instruction]bool{}}
-}
-
-type edge struct{ from, to *ssa.BasicBlock }
-
-type frame struct {
-	in     *Interp
-	fn     *ssa.Function
-	args   []Val
-	start  *ssa.BasicBlock
-	blocks map[*ssa.BasicBlock]bool
-	edges  map[edge]bool
-	vals   map[ssa.Value]Val // lattice values of instructions in visited blocks (persist over rounds)
-	memo   map[ssa.Value]Val // on-demand values of everything else (per round)
-	outer  map[ssa.Value]Val // values from a previous whole-function run (region queries)
-	must   map[ssa.Instruction]bool
-	// results (per round; the last round is the fixpoint)
-	returns       map[*ssa.Return][]Val
-	panics        map[ssa.Instruction]bool // Panic instrs, must-panic calls, failing assertions reached
-	mayPanicCalls map[*ssa.Call]bool
-	reentered     bool
-	reached       map[ssa.Instruction]bool
-	changed       bool
-}
-
-// Outcome is the result of evaluating one function activation.
-type Outcome struct {
-	CanReturn bool
-	CanPanic  bool
-	Ret       []Val // joined results over reachable returns
-	Frame     *frame
-}
-
-// Run evaluates fn from start (nil = entry) with the given argument values
-// (nil entries / short slice = unknown).
-func (in *Interp) Run(fn *ssa.Function, args []Val, start *ssa.BasicBlock) Outcome {
-	return in.RunOuter(fn, args, start, nil)
-}
-
-// RunOuter is Run with fallback values for instructions outside the visited
-// region (taken from a previous whole-function run).
-func (in *Interp) RunOuter(fn *ssa.Function, args []Val, start *ssa.BasicBlock, outer map[ssa.Value]Val) Outcome {
-	if fn.Blocks == nil {
-		return Outcome{CanReturn: true, CanPanic: false, Ret: nil}
-	}
-	for _, f := range in.stack {
-		if f == fn {
-			return Outcome{CanReturn: true, CanPanic: true}
-		}
-	}
-	if in.depth > 8 {
-		return Outcome{CanReturn: true, CanPanic: true}
-	}
-	if in.steps > in.maxSteps {
-		if !in.overBudget {
-			in.overBudget = true
-			in.Stuck = append(in.Stuck, "evaluation budget exhausted in "+FnName(fn))
-		}
-		return Outcome{CanReturn: true, CanPanic: true}
-	}
-	in.depth++
-	in.stack = append(in.stack, fn)
-	defer func() { in.depth--; in.stack = in.stack[:len(in.stack)-1] }()
-
-	if start == nil {
-		start = fn.Blocks[0]
-	}
-	fr := &frame{in: in, fn: fn, args: args, start: start, outer: outer,
-		blocks: map[*ssa.BasicBlock]bool{start: true}, edges: map[edge]bool{},
-		vals: map[ssa.Value]Val{}}
-	// The fixpoint is computed with the observers off; one more pass over the
-	// fixpoint then feeds them (ReachedAny, OnCall, the final heap), so that
-	// they describe the fixpoint and not the transient states on the way.
-	observing := in.collect || in.depth == 1
-	in.collect = false
-	pass := func() {
-		in.steps += len(fr.blocks)
-		fr.memo = map[ssa.Value]Val{}
-		fr.must = map[ssa.Instruction]bool{}
-		fr.returns = map[*ssa.Return][]Val{}
-		fr.panics = map[ssa.Instruction]bool{}
-		fr.mayPanicCalls = map[*ssa.Call]bool{}
-		fr.reached = map[ssa.Instruction]bool{}
-		for _, b := range fn.Blocks {
-			if fr.blocks[b] {
-				fr.evalBlock(b)
-			}
-		}
-	}
-	for round := 0; round < 200; round++ {
-		fr.changed = false
-		gen := in.heapGen
-		pass()
-		if os.Getenv("SC_TRACE") != "" {
-			fmt.Fprintf(os.Stderr, "round %d of %s: changed=%v blocks=%d edges=%d\n", round, fn.Name(), fr.changed, len(fr.blocks), len(fr.edges))
-			for _, b := range fn.Blocks {
-				for _, i := range b.Instrs {
-					if v, ok := i.(ssa.Value); ok {
-						fmt.Fprintf(os.Stderr, "   b%d %s = %s\n", b.Index, v.Name(), fr.vals[v])
-					}
-				}
-			}
-		}
-		if !fr.changed && gen == in.heapGen {
-			break
-		}
-		if in.steps > in.maxSteps {
-			if !in.overBudget {
-				in.overBudget = true
-				in.Stuck = append(in.Stuck, "evaluation budget exhausted in "+FnName(fn))
-			}
-			break
-		}
-		if round == 199 {
-			in.Stuck = append(in.Stuck, "no fixpoint in "+FnName(fn))
-		}
-	}
-	if observing {
-		if in.depth == 1 {
-			in.ReachedAny = map[ssa.Instruction]bool{}
-			in.finalHeap = map[string]Val{}
-		}
-		in.collect = true
-		pass()
-		for i := range fr.reached {
-			in.ReachedAny[i] = true
-		}
-		in.collect = in.depth > 1
-	}
-	out := Outcome{Frame: fr}
-	// a branch whose condition never left bottom would silently cut off its
-	// successors; report it so that callers fail instead of trusting the cut
-	for b := range fr.blocks {
-		if len(b.Instrs) == 0 {
-			continue
-		}
-		if iff, ok := b.Instrs[len(b.Instrs)-1].(*ssa.If); ok && fr.reached[iff] {
-			if fr.eval(iff.Cond).K == KBot {
-				in.Stuck = append(in.Stuck, in.Prog.Pos(iff.Cond.Pos()))
-			}
-		}
-	}
-	out.CanPanic = len(fr.panics) > 0 || len(fr.mayPanicCalls) > 0
-	var rets []*ssa.Return
-	for r := range fr.returns {
-		rets = append(rets, r)
-	}
-	sort.Slice(rets, func(i, j int) bool { return rets[i].Pos() < rets[j].Pos() })
-	for _, r := range rets {
-		vals := fr.returns[r]
-		out.CanReturn = true
-		if out.Ret == nil {
-			out.Ret = append([]Val{}, vals...)
-		} else {
-			for i := range vals {
-				out.Ret[i] = join(out.Ret[i], vals[i])
-			}
-		}
-	}
-	return out
-}
-
-// Vals exposes the fixpoint values of a frame (for region queries).
-func (fr *frame) Vals() map[ssa.Value]Val { return fr.vals }
-
-func (fr *frame) addEdge(from, to *ssa.BasicBlock) {
-	e := edge{from, to}
-	if !fr.edges[e] {
-		fr.edges[e] = true
-		fr.changed = true
-	}
-	if to == fr.start {
-		fr.reentered = true
-	}
-	if !fr.blocks[to] {
-		fr.blocks[to] = true
-		fr.changed = true
-	}
-}
-
-// setVal records the value recomputed from the current operand values.
-// Operands only move up the lattice from round to round (phis join over a
-// growing edge set), so recomputation converges; the round cap in Run turns a
-// non-converging evaluation into an undecided verdict.
-func (fr *frame) setVal(v ssa.Value, nv Val) {
-	old, had := fr.vals[v]
-	if !had || old.K != nv.K || !equalVal(old, nv) || old.Dep != nv.Dep {
-		fr.vals[v] = nv
-		fr.changed = true
-	}
-}
-
-func (fr *frame) evalBlock(b *ssa.BasicBlock) {
-	for _, instr := range b.Instrs {
-		fr.reached[instr] = true
-		if v, ok := instr.(ssa.Value); ok {
-			if _, bound := fr.bound(v); !bound {
-				fr.setVal(v, fr.eval1(v))
-			}
-		}
-		switch i := instr.(type) {
-		case *ssa.Store:
-			fr.store(fr.eval(i.Addr), fr.eval(i.Val))
-		case *ssa.MapUpdate:
-			m, k := fr.eval(i.Map), fr.eval(i.Key)
-			if m.K == KPtr && strings.Contains(m.S, "#") {
-				if k.K == KStr || k.K == KInt {
-					fr.store(Val{K: KPtr, S: m.S + "[" + k.String() + "]"}, fr.eval(i.Value))
-				} else if k.K != KBot {
-					fr.store(Val{K: KPtr, S: m.S + "[*]"}, fr.eval(i.Value))
-				}
-			}
-		case *ssa.Call:
-			if fr.must[i] {
-				fr.panics[i] = true
-				return
-			}
-		case *ssa.TypeAssert:
-			if fr.must[i] {
-				fr.panics[i] = true
-				return
-			}
-		case *ssa.If:
-			c := fr.eval(i.Cond)
-			switch {
-			case c.K == KBool && c.B:
-				fr.addEdge(b, b.Succs[0])
-			case c.K == KBool && !c.B:
-				fr.addEdge(b, b.Succs[1])
-			case c.K == KBot:
-				// condition not yet computable (operands unreached): wait
-			default:
-				if c.K == KTop && c.Dep {
-					fr.in.OpaqueSubject = true
-					fr.in.OpaqueAt = append(fr.in.OpaqueAt, fr.in.Prog.Pos(i.Cond.Pos()))
-				}
-				fr.addEdge(b, b.Succs[0])
-				fr.addEdge(b, b.Succs[1])
-			}
-			return
-		case *ssa.Jump:
-			fr.addEdge(b, b.Succs[0])
-			return
-		case *ssa.Return:
-			vals := make([]Val, len(i.Results))
-			for k, r := range i.Results {
-				vals[k] = fr.eval(r)
-			}
-			fr.returns[i] = vals
-			return
-		case *ssa.Panic:
-			fr.panics[i] = true
-			return
-		}
-	}
-}
-
-func (fr *frame) bound(v ssa.Value) (Val, bool) {
-	if fr.in.Bind != nil {
-		return fr.in.Bind(v, fr)
-	}
-	return Val{}, false
-}
-
 // ---------------------------------------------------------------------------
 // value evaluation
-
-// eval returns the current lattice value of v.
-func (fr *frame) eval(v ssa.Value) Val {
-	if b, ok := fr.bound(v); ok {
-		return b
-	}
-	if instr, ok := v.(ssa.Instruction); ok && instr.Block() != nil && fr.blocks[instr.Block()] && instr.Parent() == fr.fn {
-		return fr.vals[v] // KBot until its block has been processed
-	}
-	if fr.outer != nil {
-		if o, ok := fr.outer[v]; ok && o.K != KBot {
-			return o
-		}
-	}
-	if m, ok := fr.memo[v]; ok {
-		return m
-	}
-	fr.memo[v] = top // cycle guard for on-demand evaluation
-	r := fr.eval1(v)
-	fr.memo[v] = r
-	return r
-}
 
 func (fr *frame) eval1(v ssa.Value) Val {
 	switch x := v.(type) {
@@ -610,16 +288,16 @@ func (fr *frame) eval1(v ssa.Value) Val {
 		}
 		return topDep(t.Dep)
 	case *ssa.Alloc:
-		return Val{K: KPtr, S: allocName(x)}
+		return Val{K: KPtr, S: fr.siteName(x)}
 	case *ssa.MakeSlice:
 		n := fr.eval(x.Len)
 		l := -1
 		if n.K == KInt && n.I.IsInt64() && n.I.Int64() >= 0 && n.I.Int64() < 1<<20 {
 			l = int(n.I.Int64())
 		}
-		return Val{K: KSlice, S: allocName(x), Len: l}
+		return Val{K: KSlice, S: fr.siteName(x), Len: l}
 	case *ssa.MakeMap:
-		return Val{K: KPtr, S: allocName(x)}
+		return Val{K: KPtr, S: fr.siteName(x)}
 	case *ssa.MakeClosure:
 		if f, ok := x.Fn.(*ssa.Function); ok {
 			return Val{K: KFunc, Fn: f}
@@ -643,6 +321,24 @@ func (fr *frame) eval1(v ssa.Value) Val {
 		base := fr.eval(x.X)
 		if base.K == KBot {
 			return base
+		}
+		if base.K == KAgg {
+			if st, ok := x.X.Type().Underlying().(*types.Struct); ok {
+				suffix := "." + st.Field(x.Field).Name()
+				if isAggregate(x.Type()) {
+					sub := map[string]cell{}
+					for k, c := range base.Agg {
+						if under(k, suffix) {
+							sub[k[len(suffix):]] = c
+						}
+					}
+					return Val{K: KAgg, S: base.S + suffix, Agg: sub}
+				}
+				if c, ok := base.Agg[suffix]; ok && !c.Maybe {
+					return c.V
+				}
+				return fr.load(base.S+suffix, x.Type())
+			}
 		}
 		return topDep(base.Dep)
 	case *ssa.IndexAddr:
@@ -686,8 +382,8 @@ func (fr *frame) eval1(v ssa.Value) Val {
 			mt, _ := x.X.Type().Underlying().(*types.Map)
 			if mt != nil {
 				path := m.S + "[" + k.String() + "]"
-				_, present := fr.in.heap[path]
-				_, wild := fr.in.heap[m.S+"[*]"]
+				_, present := fr.cur.get(path)
+				_, wild := fr.cur.get(m.S + "[*]")
 				v := fr.load(path, mt.Elem())
 				if k.Dep {
 					v.Dep = true
@@ -715,6 +411,9 @@ func (fr *frame) eval1(v ssa.Value) Val {
 		it := fr.eval(x.Iter)
 		if x.IsString && it.K == KStr && it.S == "" {
 			return Val{K: KTuple, Elems: []Val{boolVal(false), top, top}}
+		}
+		if _, isRange := x.Iter.(*ssa.Range); isRange && fr.pathMode && x.IsString && it.K == KStr && !it.Dep {
+			return fr.nextRune(x, it.S)
 		}
 		if it.K == KBot {
 			return it
@@ -1209,29 +908,6 @@ func (fr *frame) slice(x *ssa.Slice) Val {
 // ---------------------------------------------------------------------------
 // memory
 
-func (fr *frame) store(addr, v Val) {
-	if addr.K != KPtr || v.K == KBot {
-		return
-	}
-	in := fr.in
-	old, ok := in.heap[addr.S]
-	nv := v
-	if ok {
-		nv = join(old, v)
-	}
-	if !ok || !equalVal(old, nv) {
-		in.heap[addr.S] = nv
-		in.heapGen++
-	}
-	if in.collect && in.finalHeap != nil {
-		if f, ok := in.finalHeap[addr.S]; ok {
-			in.finalHeap[addr.S] = join(f, v)
-		} else {
-			in.finalHeap[addr.S] = v
-		}
-	}
-}
-
 func zeroVal(t types.Type) Val {
 	switch u := t.Underlying().(type) {
 	case *types.Basic:
@@ -1249,213 +925,6 @@ func zeroVal(t types.Type) Val {
 		return Val{K: KNil}
 	}
 	return top
-}
-
-func (fr *frame) load(path string, t types.Type) Val {
-	in := fr.in
-	if b, ok := in.PathBind[path]; ok {
-		return b
-	}
-	// only memory rooted at a fresh allocation is modelled
-	fresh := strings.Contains(path, "#")
-	if !fresh {
-		if _, isMap := t.Underlying().(*types.Map); isMap {
-			return Val{K: KPtr, S: path}
-		}
-		if !in.Symbolic {
-			return top
-		}
-		// input memory: a named term as long as nothing in the analysed code stores to it
-		for k := range in.heap {
-			if k == path || strings.HasPrefix(path, k+".") || strings.HasPrefix(path, k+"[") || strings.HasPrefix(k, path+".") || strings.HasPrefix(k, path+"[") {
-				return top
-			}
-			if i := strings.LastIndex(path, "["); i >= 0 && strings.HasPrefix(k, path[:i]+"[") {
-				return top
-			}
-		}
-		switch t.Underlying().(type) {
-		case *types.Slice:
-			return Val{K: KSlice, S: path, Len: -1}
-		case *types.Pointer:
-			return Val{K: KPtr, S: "(*" + path + ")"}
-		case *types.Basic, *types.Interface:
-			return symVal(path, false)
-		case *types.Map:
-			return Val{K: KPtr, S: path}
-		}
-		return top
-	}
-	res := Val{K: KBot}
-	if v, ok := in.heap[path]; ok {
-		res = join(res, v)
-	}
-	// a store of a whole aggregate (struct, array) to an enclosing cell also
-	// defines this component; aggregates are not modelled, so it is unknown
-	for i := len(path) - 1; i > 0; i-- {
-		if path[i] == '.' || path[i] == '[' {
-			if _, ok := in.heap[path[:i]]; ok && strings.Contains(path[:i], "#") {
-				res = join(res, top)
-			}
-		}
-	}
-	// a store through an unknown index may alias any constant index
-	if i := strings.LastIndex(path, "["); i >= 0 && strings.HasSuffix(path, "]") {
-		if v, ok := in.heap[path[:i]+"[*]"]; ok {
-			res = join(res, v)
-			_ = v
-		}
-		if path[i:] == "[*]" {
-			// loading an unknown element: join of everything stored under the base
-			prefix := path[:i] + "["
-			any := false
-			for k, v := range in.heap {
-				if strings.HasPrefix(k, prefix) && !strings.Contains(k[len(prefix):], ".") && strings.Count(k[len(prefix):], "[") == 0 {
-					res = join(res, v)
-					any = true
-				}
-			}
-			_ = any
-			res = join(res, zeroVal(t))
-			return res
-		}
-	}
-	if res.K == KBot {
-		return zeroVal(t)
-	}
-	return res
-}
-
-// ---------------------------------------------------------------------------
-// calls
-
-func (fr *frame) call(c *ssa.Call) Val {
-	com := c.Common()
-	nres := com.Signature().Results().Len()
-	unknown := func(dep bool) Val {
-		if nres > 1 {
-			el := make([]Val, nres)
-			for i := range el {
-				el[i] = topDep(dep)
-			}
-			return Val{K: KTuple, Elems: el}
-		}
-		return topDep(dep)
-	}
-	args := make([]Val, len(com.Args))
-	dep := false
-	for i, a := range com.Args {
-		args[i] = fr.eval(a)
-		dep = dep || args[i].Dep
-		if args[i].K == KBot {
-			return Val{K: KBot}
-		}
-	}
-	if b, ok := com.Value.(*ssa.Builtin); ok {
-		return fr.builtin(b.Name(), c, args)
-	}
-	var callee *ssa.Function
-	if com.IsInvoke() {
-		recv := fr.eval(com.Value)
-		if recv.K == KIface {
-			sel := fr.in.Prog.SSA.MethodSets.MethodSet(recv.T).Lookup(com.Method.Pkg(), com.Method.Name())
-			if sel != nil {
-				callee = fr.in.Prog.SSA.MethodValue(sel)
-				args = append([]Val{*recv.Inner}, args...)
-			}
-		}
-		dep = dep || recv.Dep
-	} else {
-		callee = com.StaticCallee()
-		if callee == nil {
-			fv := fr.eval(com.Value)
-			if fv.K == KFunc {
-				callee = fv.Fn
-			}
-		}
-	}
-	named := func(name string) Val {
-		if !fr.in.Symbolic {
-			return unknown(dep)
-		}
-		var parts []string
-		for ai, a := range args {
-			switch a.K {
-			case KSlice:
-				if a.Len >= 0 {
-					parts = append(parts, fmt.Sprintf("%s[%d:%d]", a.S, a.Off, a.Off+a.Len))
-				} else {
-					parts = append(parts, fmt.Sprintf("%s[%d:]", a.S, a.Off))
-				}
-			case KPtr:
-				parts = append(parts, "&"+a.S)
-			default:
-				t, ok := termOf(a)
-				if !ok {
-					if ai == 0 && callee != nil && callee.Signature.Recv() != nil {
-						continue // receiver of an external method (e.g. binary.BigEndian)
-					}
-					return unknown(dep)
-				}
-				parts = append(parts, t)
-			}
-		}
-		term := name + "(" + strings.Join(parts, ",") + ")"
-		mk := func(t types.Type, suffix string) Val {
-			switch t.Underlying().(type) {
-			case *types.Slice:
-				return Val{K: KSlice, S: term + suffix, Len: -1}
-			case *types.Basic, *types.Interface:
-				return symVal(term+suffix, dep)
-			}
-			return topDep(dep)
-		}
-		res := com.Signature().Results()
-		if nres == 1 {
-			return mk(res.At(0).Type(), "")
-		}
-		el := make([]Val, nres)
-		for i := range el {
-			el[i] = mk(res.At(i).Type(), fmt.Sprintf("#%d", i))
-		}
-		return Val{K: KTuple, Elems: el}
-	}
-	if callee != nil && fr.in.OnCall != nil && fr.in.collect {
-		fr.in.OnCall(c, callee, args, fr)
-	}
-	if callee == nil {
-		if com.IsInvoke() {
-			recv := fr.eval(com.Value)
-			if t, ok := termOf(recv); ok {
-				return named(t + "." + com.Method.Name())
-			}
-		}
-		return unknown(dep)
-	}
-	if v, ok := fr.pureCall(callee, args); ok {
-		return v
-	}
-	if !InModule(callee) || callee.Blocks == nil {
-		return named(callee.Name())
-	}
-	out := fr.in.Run(callee, args, nil)
-	if !out.CanReturn {
-		fr.must[c] = true
-		return Val{K: KBot}
-	}
-	if out.CanPanic {
-		fr.mayPanicCalls[c] = true
-	}
-	if nres == 0 {
-		return top
-	}
-	if len(out.Ret) != nres {
-		return unknown(dep) // recursion or depth cut-off: nothing known about the results
-	}
-	if nres == 1 {
-		return out.Ret[0]
-	}
-	return Val{K: KTuple, Elems: out.Ret}
 }
 
 func (fr *frame) builtin(name string, c *ssa.Call, args []Val) Val {
@@ -1493,7 +962,7 @@ func (fr *frame) builtin(name string, c *ssa.Call, args []Val) Val {
 		return topDep(a.Dep)
 	case "append":
 		if len(args) != 2 {
-			return Val{K: KSlice, S: allocName(c), Len: -1}
+			return Val{K: KSlice, S: fr.siteName(c), Len: -1}
 		}
 		a0, a1 := args[0], args[1]
 		if fr.in.OnAppend != nil && fr.in.collect {
@@ -1511,7 +980,8 @@ func (fr *frame) builtin(name string, c *ssa.Call, args []Val) Val {
 		}
 		base := a0.S
 		if a0.K != KSlice || !strings.Contains(a0.S, "#") {
-			base = allocName(c)
+			base = fr.siteName(c)
+			fr.allocate(base)
 			if a0.K == KNil {
 				a0 = Val{K: KSlice, S: base, Len: 0}
 			} else {
@@ -1525,7 +995,7 @@ func (fr *frame) builtin(name string, c *ssa.Call, args []Val) Val {
 		switch {
 		case a1.K == KSlice && a1.Len >= 0 && a1.Len <= 64 && a0.Len >= 0:
 			for i := 0; i < a1.Len; i++ {
-				fr.store(Val{K: KPtr, S: fmt.Sprintf("%s[%d]", base, a0.Off+a0.Len+i)}, fr.load(fmt.Sprintf("%s[%d]", a1.S, a1.Off+i), elemT))
+				fr.store(Val{K: KPtr, S: fmt.Sprintf("%s[%d]", base, a0.Off+a0.Len+i)}, fr.load(fmt.Sprintf("%s[%d]", a1.S, a1.Off+i), elemT), nil)
 			}
 			return Val{K: KSlice, S: base, Len: a0.Len + a1.Len, Off: a0.Off}
 		case a1.K == KSlice:
@@ -1535,16 +1005,16 @@ func (fr *frame) builtin(name string, c *ssa.Call, args []Val) Val {
 			}
 			if n >= 0 {
 				for i := 0; i < n; i++ {
-					fr.store(Val{K: KPtr, S: base + "[*]"}, fr.load(fmt.Sprintf("%s[%d]", a1.S, a1.Off+i), elemT))
+					fr.store(Val{K: KPtr, S: base + "[*]"}, fr.load(fmt.Sprintf("%s[%d]", a1.S, a1.Off+i), elemT), nil)
 				}
 			} else {
-				fr.store(Val{K: KPtr, S: base + "[*]"}, fr.load(a1.S+"[*]", elemT))
+				fr.store(Val{K: KPtr, S: base + "[*]"}, fr.load(a1.S+"[*]", elemT), nil)
 			}
 			return Val{K: KSlice, S: base, Len: -1, Off: a0.Off}
 		case a1.K == KNil:
 			return a0
 		}
-		fr.store(Val{K: KPtr, S: base + "[*]"}, top)
+		fr.store(Val{K: KPtr, S: base + "[*]"}, top, nil)
 		return Val{K: KSlice, S: base, Len: -1}
 	case "cap":
 		return top
@@ -1565,12 +1035,12 @@ func (fr *frame) builtin(name string, c *ssa.Call, args []Val) Val {
 			}
 			if n >= 0 && n <= 64 && src.K == KSlice {
 				for i := 0; i < n; i++ {
-					fr.store(Val{K: KPtr, S: fmt.Sprintf("%s[%d]", dst.S, dst.Off+i)}, fr.load(fmt.Sprintf("%s[%d]", src.S, src.Off+i), et))
+					fr.store(Val{K: KPtr, S: fmt.Sprintf("%s[%d]", dst.S, dst.Off+i)}, fr.load(fmt.Sprintf("%s[%d]", src.S, src.Off+i), et), nil)
 				}
 			} else if src.K == KSlice {
-				fr.store(Val{K: KPtr, S: dst.S + "[*]"}, fr.load(src.S+"[*]", et))
+				fr.store(Val{K: KPtr, S: dst.S + "[*]"}, fr.load(src.S+"[*]", et), nil)
 			} else {
-				fr.store(Val{K: KPtr, S: dst.S + "[*]"}, top)
+				fr.store(Val{K: KPtr, S: dst.S + "[*]"}, top, nil)
 			}
 		}
 		return top
@@ -1667,64 +1137,4 @@ func (fr *frame) pureCall(fn *ssa.Function, args []Val) (Val, bool) {
 		return Val{}, false
 	}
 	return topDep(dep), true
-}
-
-// HeapAt returns what the analysed code stored at a memory path.
-func (in *Interp) HeapAt(path string) (Val, bool) {
-	if in.finalHeap != nil {
-		v, ok := in.finalHeap[path]
-		return v, ok
-	}
-	v, ok := in.heap[path]
-	return v, ok
-}
-
-// FinalHeap returns the memory as the fixpoint left it.
-func (in *Interp) FinalHeap() map[string]Val {
-	if in.finalHeap != nil {
-		return in.finalHeap
-	}
-	return in.heap
-}
-
-// Elem reads element i of a modelled slice after a run (join of all stores to
-// that index and to unknown indices; zero value if never stored).
-func (in *Interp) Elem(s Val, i int, t types.Type) Val {
-	fr := &frame{in: in}
-	if in.finalHeap != nil {
-		save := in.heap
-		in.heap = in.finalHeap
-		defer func() { in.heap = save }()
-	}
-	return fr.load(fmt.Sprintf("%s[%d]", s.S, s.Off+i), t)
-}
-
-// ValueOf returns the fixpoint value of v in this activation.
-func (fr *frame) ValueOf(v ssa.Value) Val {
-	fr.memo = map[ssa.Value]Val{}
-	return fr.eval(v)
-}
-
-// ReturnVals lists the values of every reachable return, in source order.
-func (fr *frame) ReturnVals() [][]Val {
-	var rets []*ssa.Return
-	for r := range fr.returns {
-		rets = append(rets, r)
-	}
-	sort.Slice(rets, func(i, j int) bool { return rets[i].Pos() < rets[j].Pos() })
-	var out [][]Val
-	for _, r := range rets {
-		out = append(out, fr.returns[r])
-	}
-	return out
-}
-
-// Reached reports whether instr was reached in the final round.
-func (fr *frame) Reached(instr ssa.Instruction) bool { return fr.reached[instr] }
-
-// ResetHeap forgets everything stored so far.
-func (in *Interp) ResetHeap() {
-	in.heap = map[string]Val{}
-	in.finalHeap = nil
-	in.heapGen++
 }
